@@ -254,6 +254,27 @@ static std::string own_projection()
   return s + "}";
 }
 
+// an owner that reports is_unregistered() is inert: what it hands to the sandbox is null (0), not
+// the entry point it once had. 1 per owner that is unregistered and still carries a representation
+static std::string stale_projection()
+{
+  std::string s = "{";
+  for (int i = 0; i < W->nown; i++) {
+    int v = 0;
+    if (W->exists[i] && W->sb[0]) {
+      bool unreg = i != 2 ? W->a(i).is_unregistered() : W->b().is_unregistered();
+      unsigned long long rep = i != 2 ? (unsigned long long)(uintptr_t)W->a(i).UNSAFE_sandboxed(*W->sb[0])
+                                      : (unsigned long long)(uintptr_t)W->b().UNSAFE_sandboxed(*W->sb[0]);
+      v = (unreg && rep != 0) ? 1 : 0;
+    }
+    if (i) {
+      s += ",";
+    }
+    s += "\"" + own_name(i) + "\":" + std::to_string(v);
+  }
+  return s + "}";
+}
+
 static void destroy_owner(int i)
 {
   if (i != 2) {
@@ -848,6 +869,7 @@ int main(int argc, char** argv)
       e.str("out", "abort").str("what", "unexpected exception");
     }
     e.raw("own", own_projection());
+    e.raw("stale", stale_projection());
     {
       std::string l = "{";
       bool firstl = true;
